@@ -353,6 +353,16 @@ func builtinModels(in *Interp, site ssa.CallInstruction, name string, args []Val
 			return kInt(0), true
 		}
 		return kInt(-1), true
+	case "strings.ToUpper", "strings.ToLower":
+		if k, ok := args[0].(Konst); ok {
+			if sv, ok := constStringVal(k); ok {
+				if name == "strings.ToUpper" {
+					return kStr(strings.ToUpper(sv)), true
+				}
+				return kStr(strings.ToLower(sv)), true
+			}
+		}
+		return nil, false
 	case "errors.New":
 		return in.mkErr(&ErrObj{Kind: "new", Msg: args[0]}), true
 	case "fmt.Errorf":
